@@ -10,7 +10,7 @@ ID = "C01"
 META = {
     "technique": "runtime monitoring: per-period event trace recorded by wrapping public network/scheduler methods, checked online against a trace specification (U* P* S? A X), an interval model of occupancy and a bounded-progress counter",
     "design_ref": "DESIGN.md section 6 C01",
-    "level_text": "exploration: hundreds (quick) / tens of thousands (thorough) of generated simulations over all schedulers, max_recompute values, EVSE and battery types, with a regime-complete corpus (back-to-back reuse, simultaneous arrivals/departures, recompute events after the last departure, one-period sessions); exactly-once plug/unplug, event order, occupancy per period, connectivity through recorded rates and termination judged on every run; also on the contrib StochasticNetwork (more cars than spaces), on simulators built on an empty queue that is filled afterwards, with default (infinite-maximum) EVSEs, zero-energy requests and verbose runs; second simulations built from the event objects, the emptied network or the scheduler of the first; unusual identifiers and numpy integer period indices",
+    "level_text": "exploration: hundreds (quick) / tens of thousands (thorough) of generated simulations over all schedulers, max_recompute values, EVSE and battery types, with a regime-complete corpus (back-to-back reuse, simultaneous arrivals/departures, recompute events after the last departure, one-period sessions); exactly-once plug/unplug, event order, occupancy per period, connectivity through recorded rates and termination judged on every run; also on the contrib StochasticNetwork (more cars than spaces), on simulators built on an empty queue that is filled afterwards, with default (infinite-maximum) EVSEs, zero-energy requests and verbose runs; second simulations built from the event objects, the emptied network or the scheduler of the first; unusual identifiers and numpy integer period indices; an arrival for an unregistered space (executed events vs event history after run() raised); run() again on finished simulations; event batches in any container",
     "level_note": "termination is decided as bounded progress: a run that simulates more than last event + 1 (+3) periods is stopped by the probe and reported; wall clock only drives the watchdog; sorted schedulers are driven on continuous-from-zero and finite-rate EVSEs only (C07's quantifier)",
 }
 LEVEL = "exploration"
